@@ -1,8 +1,13 @@
 from excel2pycl.src.cell import Cell
+from excel2pycl.src.exceptions import E2PyclParserException
 from excel2pycl.src.tokens import EntryPointToken
 
 
 class AstBuilder:
     @classmethod
     def parse(cls, expression: list, in_cell: Cell):
-        return EntryPointToken.get(expression, in_cell)[0]
+        token, rest = EntryPointToken.get(expression, in_cell)
+        if token is None or rest:
+            raise E2PyclParserException(f'The formula in {in_cell} cannot be parsed completely, unparsed part: {rest}')
+
+        return token
